@@ -231,7 +231,13 @@ func vlHistory(t *testing.T, enc *json.Encoder, hist int, rng *rand.Rand, nblock
 	cfg.BlockchainPubkey = pub
 	cfg.GenesisAddress = owners[0].addr
 	cfg.GenesisTimestamp = vlGenesisTime
-	cfg.GenesisCoinVolume = vlVolume
+	// every fourth history has a thousand times the coins: then a jump of the block time below 2^31 s (the specification's
+	// integers) is enough to make seconds x whole coins overflow 64 bits (vlEarly's last part)
+	volume := vlVolume
+	if hist%4 == 3 {
+		volume = 1000 * vlVolume
+	}
+	cfg.GenesisCoinVolume = volume
 	cfg.Distribution = params.MainNetDistribution
 	pcfg := cfg
 	pcfg.IsBlockPublisher = true
@@ -255,7 +261,7 @@ func vlHistory(t *testing.T, enc *json.Encoder, hist int, rng *rand.Rand, nblock
 	offer := func(mut string, sb coin.SignedBlock, sigOK, bodyOK bool, badSig map[int]bool) bool {
 		pre := F.state(t)
 		head, _ := F.v.GetSignedBlockBySeq(pre.HeadSeq)
-		e := vlEdge{Hist: hist, Step: step, Mut: mut, Volume: vlLimbs(vlVolume), Pre: pre,
+		e := vlEdge{Hist: hist, Step: step, Mut: mut, Volume: vlLimbs(volume), Pre: pre,
 			Blk: vlDescribe(sb, head.Head, sigOK, bodyOK, badSig)}
 		step++
 		err := F.v.ExecuteSignedBlock(sb)
@@ -714,9 +720,43 @@ func vlEarly(t *testing.T, P, F *vlNode, sec, otherSec cipher.SecKey, keyOf map[
 			mine = append(mine, ux)
 		}
 	}
-	if len(mine) < 3 {
+	if len(mine) == 0 {
 		return
 	}
+	if len(mine) < 6 {
+		// not enough separate outputs for what follows: the richest one is split into seven by a (valid) block first
+		rich := mine[0]
+		for _, ux := range mine {
+			if ux.Body.Coins > rich.Body.Coins {
+				rich = ux
+			}
+		}
+		if rich.Body.Coins < 14e6 {
+			return
+		}
+		var tx coin.Transaction
+		if err := tx.PushInput(rich.Hash()); err != nil {
+			t.Fatal(err)
+		}
+		part := uint64(2e6) // six small outputs, the rest stays together
+		for i := 0; i < 6; i++ {
+			tx.Out = append(tx.Out, coin.TransactionOutput{Address: dst, Coins: part, Hours: uint64(i)})
+		}
+		tx.Out = append(tx.Out, coin.TransactionOutput{Address: dst, Coins: rich.Body.Coins - 6*part, Hours: 7})
+		tx.SignInputs([]cipher.SecKey{keyOf[rich.Body.Address]})
+		if err := tx.UpdateHeader(); err != nil {
+			t.Fatal(err)
+		}
+		b0 := handOn(P, coin.Transactions{tx}, 0)
+		if !offer("valid", b0, true, true, nil) {
+			return
+		}
+		if err := P.v.ExecuteSignedBlock(b0); err != nil {
+			t.Fatalf("publisher refused a hand-made valid block: %v", err)
+		}
+		mine = coin.CreateUnspents(b0.Head, tx)
+	}
+	sort.SliceStable(mine, func(i, j int) bool { return mine[i].Body.Coins < mine[j].Body.Coins }) // the poorest first, the richest last
 	spend := func(ux coin.UxOut) coin.Transaction {
 		var tx coin.Transaction
 		if err := tx.PushInput(ux.Hash()); err != nil {
@@ -748,5 +788,35 @@ func vlEarly(t *testing.T, P, F *vlNode, sec, otherSec cipher.SecKey, keyOf map[
 	if offer("seen-before-now-another-body", rb, true, false, nil) {
 		return
 	}
-	offer("valid", b2, true, true, nil)
+	if !offer("valid", b2, true, true, nil) {
+		return
+	}
+	if err := P.v.ExecuteSignedBlock(b2); err != nil {
+		t.Fatalf("publisher refused a hand-made valid block: %v", err)
+	}
+	// ---- a jump of the block time (a publisher may sign any later time): coin hours are seconds x coins / 3600, and for
+	// the richest output the product no longer fits 64 bits - it cannot be spent any more, whatever hours the spend claims
+	var rich coin.UxOut
+	for _, ux := range mine[2:] {
+		if ux.Body.Coins > rich.Body.Coins {
+			rich = ux
+		}
+	}
+	const jumpTo = uint64(1)<<31 - 5000
+	if rich.Body.Coins/1e6 < 1<<33 || len(mine) < 5 {
+		return
+	}
+	other := mine[2]
+	if other.Hash() == rich.Hash() {
+		other = mine[3]
+	}
+	b3 := handOn(P, coin.Transactions{spend(other)}, jumpTo)
+	if !offer("valid-time-jump", b3, true, true, nil) {
+		return
+	}
+	if err := P.v.ExecuteSignedBlock(b3); err != nil {
+		t.Fatalf("publisher refused a hand-made valid block: %v", err)
+	}
+	b4 := handOn(P, coin.Transactions{spend(rich)}, jumpTo+3600)
+	offer("spend-of-an-input-whose-coin-seconds-overflow", b4, true, true, nil)
 }
